@@ -653,6 +653,133 @@ func pickFieldN(key string, n int) c02Pick {
 	}
 }
 
+// ---- round 5: whole function bodies as Lean functions ------------------------------------------------------------
+//
+// c02BodyFn translates the body of a Go function made of if-statements (with or without else, with or without an early
+// return), plain statements (calls, assignments, declarations) and returns into ONE Lean function
+//
+//	def <lean> {σ : Type} (c0 c1 … : σ → Bool) (e0 e1 … : σ → σ) (s : σ) : σ × String
+//
+// in which every condition / effect statement of the source is an ATOM (c_i / e_j, numbered in order of first appearance,
+// equal source text = same atom) and the result is the final state paired with the source text of the return
+// expression that was reached ("" = fell off the end). The control structure, the order of the effects and the early
+// returns are those of the Go source; the atoms' source texts are emitted next to it as <lean>Conds / <lean>Effects. The
+// Tie gives each atom its meaning in the model (by position, pinned by the text list) and proves the function equal to
+// the model's definition for ALL states. Statements whose text contains one of `skip` are left out (log lines).
+func (e *emitter) c02BodyFn(s *source, rel, goName, lean string, skip ...string) {
+	fd := s.findFunc(rel, goName)
+	if fd == nil || fd.Body == nil {
+		e.errors = append(e.errors, fmt.Sprintf("%s: function %s not found in %s", lean, goName, rel))
+		e.printf("def %s : Unit := ()\n\n", lean)
+		e.stringList(lean+"Conds", "MISSING", []string{"MISSING"})
+		e.stringList(lean+"Effects", "MISSING", []string{"MISSING"})
+		return
+	}
+	norm := func(n ast.Node) string { return strings.Join(strings.Fields(s.src(n)), " ") }
+	var conds, effs []string
+	idx := func(l *[]string, t string) int {
+		for i, x := range *l {
+			if x == t {
+				return i
+			}
+		}
+		*l = append(*l, t)
+		return len(*l) - 1
+	}
+	unsupported := ""
+	var emit func(list []ast.Stmt, depth int) string
+	emit = func(list []ast.Stmt, depth int) string {
+		ind := strings.Repeat("  ", depth)
+		if len(list) == 0 {
+			return ind + "(s, \"\")"
+		}
+		st, rest := list[0], list[1:]
+		txt := norm(st)
+		if _, isIf := st.(*ast.IfStmt); !isIf {
+			for _, k := range skip {
+				if strings.Contains(txt, k) {
+					return emit(rest, depth)
+				}
+			}
+		}
+		switch x := st.(type) {
+		case *ast.ReturnStmt:
+			var rs []string
+			for _, r := range x.Results {
+				rs = append(rs, norm(r))
+			}
+			return ind + "(s, " + leanString(strings.Join(rs, ", ")) + ")"
+		case *ast.IfStmt:
+			if x.Init != nil {
+				unsupported = "if with init statement"
+				return ind + "(s, \"\")"
+			}
+			c := idx(&conds, norm(x.Cond))
+			var els []ast.Stmt
+			switch b := x.Else.(type) {
+			case *ast.BlockStmt:
+				els = b.List
+			case *ast.IfStmt:
+				els = []ast.Stmt{b}
+			}
+			thenL := append(append([]ast.Stmt{}, x.Body.List...), rest...)
+			elseL := append(append([]ast.Stmt{}, els...), rest...)
+			return fmt.Sprintf("%sif c%d s then\n%s\n%selse\n%s", ind, c, emit(thenL, depth+1), ind, emit(elseL, depth+1))
+		case *ast.ExprStmt, *ast.AssignStmt, *ast.DeclStmt, *ast.IncDecStmt:
+			k := idx(&effs, txt)
+			return fmt.Sprintf("%slet s := e%d s\n%s", ind, k, emit(rest, depth))
+		default:
+			unsupported = fmt.Sprintf("%T", st)
+			return ind + "(s, \"\")"
+		}
+	}
+	body := emit(fd.Body.List, 1)
+	if unsupported != "" {
+		e.errors = append(e.errors, fmt.Sprintf("%s (%s): statement outside the translated subset: %s", lean, goName, unsupported))
+	}
+	var ps []string
+	for i := range conds {
+		ps = append(ps, fmt.Sprintf("c%d", i))
+	}
+	cp, ep := "", ""
+	if len(ps) > 0 {
+		cp = " (" + strings.Join(ps, " ") + " : σ → Bool)"
+	}
+	ps = nil
+	for i := range effs {
+		ps = append(ps, fmt.Sprintf("e%d", i))
+	}
+	if len(ps) > 0 {
+		ep = " (" + strings.Join(ps, " ") + " : σ → σ)"
+	}
+	e.printf("/-- body of `%s`, %s: control structure, order of effects and returns translated; atoms are parameters -/\ndef %s {σ : Type}%s%s (s : σ) : σ × String :=\n%s\n\n", goName, rel, lean, cp, ep, body)
+	e.stringList(lean+"Conds", "condition atoms c0, c1, … of "+lean, conds)
+	e.stringList(lean+"Effects", "effect atoms e0, e1, … of "+lean, effs)
+}
+
+// c02CallArgs emits, for the value of a struct-literal field that is a call, the callee and the argument list as typed data:
+// (callee, [arg0, arg1, …]) with whitespace-normalised source texts.
+func (e *emitter) c02CallArgs(s *source, rel, goName, lean string, pick c02Pick) {
+	fd := s.findFunc(rel, goName)
+	var call *ast.CallExpr
+	if fd != nil {
+		if ex, ok := pick(s, fd); ok {
+			call, _ = ex.(*ast.CallExpr)
+		}
+	}
+	if call == nil {
+		e.errors = append(e.errors, fmt.Sprintf("%s: call not found in %s (%s)", lean, goName, rel))
+		e.printf("def %s : String × List String := (\"MISSING\", [])\n\n", lean)
+		return
+	}
+	var args []string
+	for _, a := range call.Args {
+		args = append(args, leanString(strings.Join(strings.Fields(s.src(a)), " ")))
+	}
+	e.printf("/-- call in `%s`, %s: callee and arguments in order -/\ndef %s : String × List String := (%s, [%s])\n\n", goName, rel, lean,
+		leanString(strings.Join(strings.Fields(s.src(call.Fun)), " ")), strings.Join(args, ", "))
+}
+
 const c02Prelude = `/-- meaning given to math.Ceil / math.Round (half away from zero) / mathx.AtLeast / mathx.Between on exact values -/
 def goCeil (x : Rat) : Int := x.ceil
 def goRound (x : Rat) : Int := if 0 ≤ x then (x + 1 / 2).floor else -((-x + 1 / 2).floor)
@@ -841,5 +968,26 @@ func init() {
 			e.stringList("rpcRequestSteps", "MISSING", []string{"MISSING"})
 		}
 		e.c02Text(s, ri, "UnarySheddingInterceptor", "rpcHandlerCall", pickReturn(1))
+
+		// ---- round 5: whole function bodies (control structure + order of effects + returns) as Lean functions
+		e.c02BodyFn(s, f, "adaptiveShedder.stillHot", "stillHotFn")
+		e.c02BodyFn(s, f, "adaptiveShedder.systemOverloaded", "systemOverloadedFn")
+		e.c02BodyFn(s, f, "adaptiveShedder.shouldDrop", "shouldDropFn", "flying :=", "avgFlying", "msg", "logx.")
+		e.c02BodyFn(s, f, "adaptiveShedder.Allow", "allowFn")
+		e.c02BodyFn(s, f, "adaptiveShedder.addFlying", "addFlyingFn")
+		e.c02BodyFn(s, f, "promise.Pass", "passFn")
+		e.c02BodyFn(s, f, "promise.Fail", "failFn")
+		e.c02BodyFn(s, f, "Disable", "disableFn")
+		e.c02BodyFn(s, "core/load/nopshedder.go", "nopShedder.Allow", "nopAllowFn")
+		e.c02BodyFn(s, "core/load/nopshedder.go", "nopPromise.Pass", "nopPassFn")
+		e.c02BodyFn(s, "core/load/nopshedder.go", "nopPromise.Fail", "nopFailFn")
+		e.c02BodyFn(s, "core/load/nopshedder.go", "newNopShedder", "newNopShedderFn")
+		e.c02BodyFn(s, "core/load/sheddergroup.go", "nopCloser.Close", "nopCloserCloseFn")
+		e.c02BodyFn(s, "core/mathx/range.go", "AtLeast", "atLeastFn")
+		e.c02BodyFn(s, "core/mathx/range.go", "Between", "betweenFn")
+		e.c02BodyFn(s, "core/stat/usage.go", "CpuUsage", "cpuUsageFn")
+		// the two rolling windows of NewAdaptiveShedder as typed argument lists
+		e.c02CallArgs(s, f, "NewAdaptiveShedder", "newPassCounterCall", pickField("passCounter"))
+		e.c02CallArgs(s, f, "NewAdaptiveShedder", "newRtCounterCall", pickField("rtCounter"))
 	})
 }
